@@ -266,6 +266,73 @@ def concurrent_senders_round(port, size):
 HOLD_BACK = 6000
 
 
+def reconnect_during_send_round(port, size=12 * 1024 * 1024):
+    """A big message is on its way to a peer that does not read (the sender waits for the socket to become writable); the endpoint ends the
+    connection and the peer connects again at once.  No byte of the message may reach the second connection, and success is only reported
+    if the first connection got all of it (D79)."""
+    import secsgem.common
+    import secsgem.hsms
+    settings = secsgem.hsms.HsmsSettings(address="127.0.0.1", port=port, connect_mode=secsgem.hsms.HsmsConnectMode.PASSIVE)
+    conn = secsgem.common.TcpServerConnection(settings)
+    up = threading.Event()
+    conn.on_connected.register(lambda _: up.set())
+    conn.enable()
+
+    def connect():
+        for _ in range(800):
+            s = socket.socket()
+            try:
+                s.connect(("127.0.0.1", port))
+                s.settimeout(10)
+                return s
+            except OSError:
+                s.close()
+                time.sleep(0.005)
+        raise common.Wedged("the endpoint does not accept a connection")
+
+    try:
+        peer1 = connect()
+        if not up.wait(10):
+            raise common.Wedged("on_connected was not reported")
+        up.clear()
+        payload = bytes((i * 7 + i // 251) % 256 for i in range(4096)) * (size // 4096)
+        res = []
+        sender = threading.Thread(target=lambda: res.append(conn.send_data(payload)), daemon=True)
+        sender.start()
+        time.sleep(1.0)                # the peer reads nothing: the socket buffers are full, the sender waits in select()
+        threading.Thread(target=conn.disconnect, daemon=True).start()
+        peer2 = connect()
+        up.wait(10)
+        got1, got2 = bytearray(), bytearray()
+
+        def drain(sock, into):
+            try:
+                while True:
+                    c = sock.recv(1 << 16)
+                    if not c:
+                        break
+                    into.extend(c)
+            except OSError:
+                pass
+
+        t1 = threading.Thread(target=drain, args=(peer1, got1), daemon=True)
+        t2 = threading.Thread(target=drain, args=(peer2, got2), daemon=True)
+        t1.start()
+        t2.start()
+        sender.join(30)
+        returned = not sender.is_alive()
+        threading.Thread(target=conn.disable, daemon=True).start()
+        t1.join(15)
+        t2.join(15)
+        return {"size": len(payload), "send_returned": returned, "reported": res[0] if res else None, "first_connection_got": len(got1), "second_connection_got": len(got2),
+                "first_is_a_prefix": payload.startswith(bytes(got1)), "first_got_all": bytes(got1) == payload}
+    finally:
+        try:
+            conn.disable()
+        except Exception:  # noqa: BLE001
+            pass
+
+
 def loopback_round(port, size, pacing, via_protocol, close_after_send=False):
     """a passive HSMS endpoint on the loopback interface sends `size` bytes to a real socket that reads with the given pacing"""
     tcpmod.TcpConnection.select_timeout = 0.02
@@ -455,6 +522,11 @@ def run(tier, replay=None):
         if obs["reported"] and not obs["identical"]:
             report.violation({"kind": "counterexample", "what": "send_data() reported success, the endpoint was closed, and the peer reading until EOF did not receive the bytes complete", **obs}, True, tag="tcp")
             break
+    swap = common.guarded(lambda: reconnect_during_send_round(common.own_port(5)), "the connection is replaced while a big message is on its way", twedged, 120.0)
+    report.coverage["connection_replaced_during_a_send"] = swap
+    if swap is not None and not (swap["send_returned"] and swap["second_connection_got"] == 0 and swap["first_is_a_prefix"] and (swap["reported"] is not True or swap["first_got_all"])):
+        report.violation({"kind": "counterexample", "what": "the connection ended and the next one was established while a message was on its way: bytes of the message reached the new connection, "
+                          "or success was reported although the connection it was started on did not get all of it", **swap}, True, tag="swap")
     closed_obs = common.guarded(send_on_closed_socket_case, "send_message right after the socket was closed", twedged, 60.0)
     if closed_obs is not None and not (closed_obs.get("send_returned") and closed_obs.get("reported") is False):
         report.violation({"kind": "counterexample", "what": "a send on a connection whose socket had just been closed did not come back with failure", **closed_obs}, True, tag="closedsocket")
